@@ -172,6 +172,10 @@ func max64(a, b int64) int64 {
 
 func c04Run(t *testing.T, s *sim.Scn) *sim.Outcome {
 	o := sim.NewOutcome()
+	if cs := s.Cfg["cachestate"]; cs > 0 {
+		c04CacheRun(t, int(cs), o)
+		return o
+	}
 	depth := int(s.Cfg["depth"])
 	if depth < 1 {
 		depth = 2
@@ -243,6 +247,7 @@ func TestC04(t *testing.T) {
 		Components:  map[string]string{"block.Manager": "real", "block.Reaper": "real", "sequencers/single": "real", "pkg/store": "real", "datastore": "stub (SimDatastore with write journal)", "executor": "stub (SimExec)", "DA": "stub (SimDA, unused here)"},
 		Gen:         c04Gen,
 		Run:         c04Run,
+		Enumerate:   c04CacheEnumerate(t),
 		CfgMin:      map[string]int64{"ih": 1, "depth": 2},
 		QuickBudget: 30 * time.Second, ThoroughBudget: 12 * time.Minute,
 	})
